@@ -663,6 +663,16 @@ def LState.histRead (s : LState) (n : Nat) : Query → Res
     | some at_ => if n < at_ then .notfound else .ok at_
     | none => .notfound
 
+/-- A legacy historical storage read TORN by a commit: the reader holds no snapshot, so the scan of
+the history logs sees the database as `s₁` and the head read that follows sees it as `s₂` (a block
+was committed in between, e.g. by sync while an RPC request is served). `rescan` = the repair of
+proposed-fixes/C03-legacy-history-read-rescan-after-head.diff: scan the logs once more after the
+head read. (The deployment probe that follows is not affected: heights never change.) -/
+def LState.tornStorageValue (rescan : Bool) (s₁ s₂ : LState) (n : Nat) (a : Addr) (k : Slot) : Val :=
+  (legacyValueAt (lget s₁.logs (.storage a k)) n).getD
+    (if rescan then (legacyValueAt (lget s₂.logs (.storage a k)) n).getD (s₂.storageHead a k)
+     else s₂.storageHead a k)
+
 /-! ## CASM hash metadata (blockchain/statebackend/casm_metadata.go, core/class.go) -/
 
 structure CasmMeta where
